@@ -209,6 +209,7 @@ Proposed(me, base, t, claimed, now) ==
   LET v == ValidateProposal(base, t, now)
       e == FirstErr(<<
         <<~CanGo(base.st, "Proposed"), "InvalidStateChange">>,
+        <<t.ldr = "none", "panic">>,                    \* terms.Leader.Address with Leader == nil
         <<Addr[t.ldr] # claimed, "ErrCannotProposeAsNonLeader">>,
         <<v # "ok", v>>,
         <<me \notin t.join /\ me \notin t.rem /\ me \notin t.leav, "ErrSelfMissingFromProposal">> >>)
@@ -537,7 +538,8 @@ Swap1(S, a, b) == IF a \in S THEN (S \ {a}) \cup {b} ELSE S        \* substitute
 SubstT(t, a, b) == [t EXCEPT !.ldr = IF @ = a THEN b ELSE @, !.rem = Swap1(@, a, b),
                             !.join = Swap1(@, a, b), !.leav = Swap1(@, a, b)]
 
-LeaderOf(S) == IF \E p \in S : Addr[p] = 1 THEN CHOOSE p \in S : Addr[p] = 1
+LeaderOf(S) == IF S = {} THEN "none"
+               ELSE IF \E p \in S : Addr[p] = 1 THEN CHOOSE p \in S : Addr[p] = 1
                ELSE CHOOSE p \in S : \A q \in S : Addr[p] <= Addr[q]
 
 Genesis(J, tm) == [ep |-> 1, ldr |-> LeaderOf(J), rem |-> {}, join |-> J, leav |-> {},
